@@ -83,7 +83,17 @@ def run_scenario(name):
         "set": ["set", "plot_split", "true", "plot_linewidth", "3", "plot_statistics", "rmse", "max"],
         "merge_hard": ["set", "-m", other],
         "merge_soft": ["set", "-m", other, "--soft"],
+        # the settings file named explicitly, by a relative spelling, from another directory
+        "set_rel": ["set", "-c", "settings.json", "plot_split", "true", "plot_linewidth", "3"],
+        "merge_soft_rel": ["set", "-c", os.path.join(".evo", "settings.json"), "-m", other, "--soft"],
+        "set_dotdot": ["set", "-c", os.path.join("..", ".evo", "settings.json"), "plot_usetex", "true"],
     }[name]
+    if name == "set_rel":
+        os.chdir(os.path.join(os.environ["HOME"], ".evo"))
+    elif name == "merge_soft_rel":
+        os.chdir(os.environ["HOME"])
+    elif name == "set_dotdot":
+        os.chdir(os.path.join(os.environ["HOME"], ".evo"))
     sys.argv = ["evo_config"] + argv
     import io
     import contextlib
